@@ -99,6 +99,8 @@ class Sym:
                     t = self.ev(s["i"], env)
                     if "els" in s:
                         stmts.append(("letelse", show_pat(s["p"]), t, self.ev(s["els"], env)))
+                    elif s["p"].get("k") == "Wild":
+                        stmts.append(t)  # `let _ = e;` evaluates e for its effect
                     elif not pat_simple(s["p"]) or any(i in self.mutated for i, _, _ in pat_bindings(s["p"])):
                         stmts.append(("letstmt", show_pat(s["p"]), t))
                     if self.inline_lets:
